@@ -171,6 +171,18 @@ def run(tier, seed):
     finally:
         api.REGISTRY.clear()
         api.REGISTRY.update(saved)
+    # PerCPUReader.read sizes its buffer as map.size * cpu_no and relies on
+    # ArrayMap.collect returning a multiple of 8 (the kernel's per-CPU stride is
+    # the value size rounded up to 8): C08's contract of collect, re-proved here
+    from contracts import c08_arraymap as S8
+    from props import c08
+    c08.verify_fmtsize(rep)
+    for sh in S8.SHAPES[:2]:
+        for k in range(len(S8.CONCRETE_SIZES)):
+            c = S8.collect_contract(sh, concrete=k)
+            api.verify(c, rep, quiet=True, replay=lambda n, i, nt, sh=sh, k=k: c08.native_sizes(sh, k, n))
+        c = S8.collect_contract(sh)
+        api.verify(c, rep, quiet=True, replay=lambda n, i, nt, c=c: c08.native_collect(c, n, i, nt))
     return rep.finish(
         explanation="pyvc: call-site preconditions. Layer 1: the real source of bpf._lookup_elem / update_elem / "
         "delete_elem / get_next_key against the kernel ABI of bpf() (ghost pointers carry buffer lengths); layer 2: "
